@@ -85,7 +85,7 @@ def model_input(scheds, path):
             for n, lbl, obs in s.acts:
                 f.write("A\t%s\t%s\t%s\t%s\n" % (s.idx, n, lbl, obs))
             nscript = len([l for l in s.script if not l.startswith(("skew ", "seq0 "))]) \
-                + len([l for l in s.script if l.startswith("early ")])  # (an early hand-over is recorded as two actions)
+                + 2 * len([l for l in s.script if l.startswith("early ")])  # (an early hand-over is recorded as three actions)
             if s.status and s.status.startswith("died") and nscript == len(s.acts) + 1 \
                     and s.script[-1].startswith("step rx"):
                 n = str(len(s.acts))
